@@ -27,6 +27,8 @@ var extra = []string{
 	"SELECT t.a * t.b, t.a - t.b, -t.a FROM t",
 	"SELECT t.a / t.b AS e FROM t",
 	"SELECT t.a DIV t.b, t.a % t.b FROM t",
+	// constant divisors, zero and non-zero, under a dividend that cannot be NULL
+	"SELECT t.a % 0, t.a DIV 0, t.a / 0, MOD(t.a, 0), t.a % 2, COALESCE(t.b, 1) % 0, COALESCE(t.b, 1) % 0.0, COALESCE(t.b, 1) % '0', COALESCE(t.b, 1) DIV 0, COALESCE(t.b, 1) / 0, COALESCE(t.b, 1) % 2, COALESCE(t.b, 1) DIV 2 FROM t",
 	"SELECT t.a + 0.5, t.a * 1e0, t.a + '1' FROM t",
 	"SELECT CASE WHEN t.a > 1 THEN t.b ELSE 'x' END AS e FROM t",
 	"SELECT CASE WHEN t.a > 1 THEN t.b ELSE 1.5 END AS e FROM t",
